@@ -1,5 +1,5 @@
 import OdxVerif.Proofs.CompExtPeek
-import OdxVerif.Proofs.CompExtMid
+import OdxVerif.Proofs.CompExtFieldsD
 /-! Compositional components, extension W11 (5): **DYNAMIC-ENDMARKER-FIELD**.
     `DynamicEndmarkerField.encode_into_pdu`: the items (the last one inherits `is_end_of_pdu`), then — unless at the end of the
     PDU — the termination value through the DYN-END-DOP, after which the cursor is PUT BACK in front of it ("the end marker is
@@ -120,8 +120,8 @@ theorem emProbe_hit (l : EmLayout) (h : l.ok) (g : Nat) (d : DecState) (hcb : d.
 def emItemC (l : EmLayout) (c : DComp) : Pair PVal :=
   { dynItemC c with fits := fun d => (dynItemC c).fits d ∧ (decStep l.obj d).1 ≠ .int l.tv }
 
-theorem emItemC_good (l : EmLayout) (c : DComp) (hc : c.Ok) (hsz : 1 ≤ c.size) (hm : l.miss c) : Good (emItemC l c) :=
-  Good.reDec (dynItemC_good c hc hsz) (emItemC l c) rfl (fun d _ hv hf => ⟨hv, rfl, hf, hm d hf.1 hv⟩)
+theorem emItemC_good (l : EmLayout) (c : DComp) (hc : c.OkM true) (hsz : 1 ≤ c.size) (hm : l.miss c) : Good (emItemC l c) :=
+  Good.reDec (dynItemM_good c hc hsz) (emItemC l c) rfl (fun d _ hv hf => ⟨hv, rfl, hf, hm d hf.1 hv⟩)
 
 theorem emItems_enc (l : EmLayout) : ∀ (cs : List DComp), (Pair.list (cs.map (emItemC l))).enc = (Pair.list (cs.map dynItemC)).enc
   | [] => rfl
@@ -143,17 +143,17 @@ theorem emItems_val (l : EmLayout) (cs : List DComp) : (Pair.list (cs.map (emIte
   rw [Pair.list_val, List.map_map]
   rfl
 
-theorem emItems_good (l : EmLayout) (cs : List DComp) (h : ∀ c ∈ cs, c.Ok ∧ 1 ≤ c.size ∧ l.miss c) :
+theorem emItems_good (l : EmLayout) (cs : List DComp) (h : ∀ c ∈ cs, c.OkM true ∧ 1 ≤ c.size ∧ l.miss c) :
     Good (Pair.list (cs.map (emItemC l))) :=
   Good.list _ (by
     intro p hp
     obtain ⟨x, hx, rfl⟩ := List.mem_map.mp hp
     exact emItemC_good l x (h x hx).1 (h x hx).2.1 (h x hx).2.2)
 
-theorem emItems_originFree (l : EmLayout) (cs : List DComp) (h : ∀ c ∈ cs, c.Ok) : OriginFree (Pair.list (cs.map (emItemC l))) := by
+theorem emItems_originFree (l : EmLayout) (cs : List DComp) (h : ∀ c ∈ cs, c.OkM true) : OriginFree (Pair.list (cs.map (emItemC l))) := by
   intro s o
   rw [emItems_enc]
-  exact dynItemsC_originFree cs h s o
+  exact dynItemsM_originFree cs h s o
 
 /-- the plain item list accepts what the end-marker item list accepts -/
 theorem emItems_fits (l : EmLayout) : ∀ (cs : List DComp) (d : DecState), (Pair.list (cs.map (emItemC l))).fits d →
@@ -167,7 +167,7 @@ theorem emItems_fits (l : EmLayout) : ∀ (cs : List DComp) (d : DecState), (Pai
 /-- the decoder's loop of a DYNAMIC-ENDMARKER-FIELD = the pure list of items, provided that behind the items either the message
     ends or the termination value stands -/
 theorem decodeUntilMarkerC_eq (l : EmLayout) (hl : l.ok) (item : Dop) : ∀ (cs : List DComp) (m : Nat),
-    (∀ c ∈ cs, c.itemOk item ∧ c.EndOk ∧ c.need ≤ m) → ∀ (fuel : Nat), cs.length + m + 2 ≤ fuel →
+    (∀ c ∈ cs, c.itemOkM item ∧ c.EndOk ∧ c.need ≤ m) → ∀ (fuel : Nat), cs.length + m + 2 ≤ fuel →
     ∀ (d : DecState), d.cursorBit = 0 → (Pair.list (cs.map (emItemC l))).fits d →
     (((Pair.list (cs.map dynItemC)).dec d).2.cursorByte = d.msg.length ∨
       (((Pair.list (cs.map dynItemC)).dec d).2.cursorByte + l.obj.k ≤ d.msg.length ∧
@@ -210,9 +210,9 @@ theorem decodeUntilMarkerC_eq (l : EmLayout) (hl : l.ok) (item : Dop) : ∀ (cs 
     have hfit' : (((c.pair.fits d ∧ d.cursorByte < (c.pair.dec d).2.cursorByte)) ∧ (decStep l.obj d).1 ≠ .int l.tv) ∧
         (Pair.list (cs.map (emItemC l))).fits (c.pair.dec d).2 := hfit
     obtain ⟨⟨⟨hcfit, hadv⟩, hmiss⟩, hrest⟩ := hfit'
-    have hoks : ∀ x ∈ cs, x.Ok := fun x hx => (hall x (List.mem_cons_of_mem _ hx)).1.1
+    have hoks : ∀ x ∈ cs, x.OkM true := fun x hx => (hall x (List.mem_cons_of_mem _ hx)).1.1
     have hge := dynItemsC_dec_cursor_ge cs _ (emItems_fits l cs _ hrest)
-    have hmsgs := dynItemsC_dec_msg cs hoks (c.pair.dec d).2
+    have hmsgs := dynItemsM_dec_msg cs hoks (c.pair.dec d).2
     have hmsg1 := hok.dec_msg d
     have hD : ((Pair.list ((c :: cs).map dynItemC)).dec d).2 = ((Pair.list (cs.map dynItemC)).dec (c.pair.dec d).2).2 := rfl
     rw [hD] at htail
@@ -220,7 +220,7 @@ theorem decodeUntilMarkerC_eq (l : EmLayout) (hl : l.ok) (item : Dop) : ∀ (cs 
       have hk := l.k_pos hl
       rcases htail with h | ⟨h, _⟩ <;> omega
     have hne : ¬ (d.cursorByte = d.msg.length) := by omega
-    have h1 := hok.decode_eq (g + 1) (by omega) d hcb hcfit (hitem.decPre hendOk d)
+    have h1 := hok.decode_eq (g + 1) (by omega) d hcb hcfit (hendOk.trivial hitem.2.2 d)
     rw [hitem.2.1] at h1
     have h2 := ih m (fun x hx => hall x (List.mem_cons_of_mem _ hx)) (g + 1) (by omega) (c.pair.dec d).2
       (hok.dec_cursorBit d hcb) hrest (by rw [hmsg1]; exact htail)
@@ -307,8 +307,9 @@ theorem DComp.endMarkerEop_val (l : EmLayout) (item : Dop) (cs : List DComp) :
 
 /-- **closure under DYNAMIC-ENDMARKER-FIELD, at the end of the PDU** -/
 theorem DComp.endMarkerEop_ok (l : EmLayout) (hl : l.ok) (item : Dop) (cs : List DComp)
-    (h : ∀ c ∈ cs, c.itemOk item ∧ c.EndOk ∧ 1 ≤ c.size ∧ l.miss c) : (DComp.endMarkerEop l item cs).Ok := by
-  have hoks : ∀ c ∈ cs, c.Ok := fun c hc => (h c hc).1.1
+    (h : ∀ c ∈ cs, c.itemOkM item ∧ c.EndOk ∧ 1 ≤ c.size ∧ l.miss c) (hlastM : ∀ c, cs.getLast? = some c → c.OkM false) :
+    (DComp.endMarkerEop l item cs).Ok := by
+  have hoks : ∀ c ∈ cs, c.OkM true := fun c hc => (h c hc).1.1
   have hg : Good (Pair.list (cs.map (emItemC l))) := emItems_good l _ (fun c hc => ⟨(h c hc).1.1, (h c hc).2.2.1, (h c hc).2.2.2⟩)
   exact {
     good := (hg.map _).inOrigin
@@ -319,9 +320,9 @@ theorem DComp.endMarkerEop_ok (l : EmLayout) (hl : l.ok) (item : Dop) (cs : List
     encode_eq := by
       intro fuel hf s hcb heop
       obtain ⟨g, rfl⟩ : ∃ g, fuel = g + 1 := ⟨fuel - 1, by simp only [DComp.endMarkerEop] at hf; omega⟩
-      obtain ⟨s2, hrun, hcore, hcb2⟩ := encodeItemsC_eq item true cs (DComps.maxNeed cs)
-        (fun c hc => ⟨(h c hc).1, (h c hc).2.2.1, DComps.maxNeed_ge cs c hc⟩) g (by simp only [DComp.endMarkerEop] at hf; omega)
-        { s with isEndOfPdu := false } hcb
+      obtain ⟨s2, hrun, hcore, hcb2⟩ := encodeItemsM_eq item true false (fun hm => by cases hm) cs (DComps.maxNeed cs)
+        (fun c hc => ⟨(h c hc).1, (h c hc).2.2.1, DComps.maxNeed_ge cs c hc⟩) hlastM g (by simp only [DComp.endMarkerEop] at hf; omega)
+        { s with isEndOfPdu := false } hcb rfl
       rw [← emItems_enc l] at hcore
       refine ⟨{ s2 with isEndOfPdu := true }, ?_, ?_, hcb2⟩
       · simp only [DComp.endMarkerEop]
@@ -334,15 +335,15 @@ theorem DComp.endMarkerEop_ok (l : EmLayout) (hl : l.ok) (item : Dop) (cs : List
     enc_cursor := fun s => by
       show ((Pair.list (cs.map (emItemC l))).enc { s with origin := s.cursorByte }).cursorByte = _
       rw [emItems_enc]
-      exact dynItemsC_enc_cursor cs hoks { s with origin := s.cursorByte }
+      exact dynItemsM_enc_cursor cs hoks { s with origin := s.cursorByte }
     dec_cursorBit := fun d hd => by
       show ((Pair.list (cs.map (emItemC l))).dec { d with origin := d.cursorByte }).2.cursorBit = 0
       rw [emItems_dec]
-      exact dynItemsC_dec_cursorBit cs hoks { d with origin := d.cursorByte } hd
+      exact dynItemsM_dec_cursorBit cs hoks { d with origin := d.cursorByte } hd
     dec_msg := fun d => by
       show ((Pair.list (cs.map (emItemC l))).dec { d with origin := d.cursorByte }).2.msg = d.msg
       rw [emItems_dec]
-      exact dynItemsC_dec_msg cs hoks { d with origin := d.cursorByte }
+      exact dynItemsM_dec_msg cs hoks { d with origin := d.cursorByte }
     dec_origin := fun _ => rfl
     decode_eq := by
       intro fuel hf d hcb hfit hpre
@@ -397,8 +398,8 @@ theorem DComp.endMarkerMid_val (l : EmLayout) (item : Dop) (cs : List DComp) :
 
 /-- **closure under DYNAMIC-ENDMARKER-FIELD, end marker written**: a data object that needs `is_end_of_pdu` cleared -/
 theorem DComp.endMarkerMid_ok (l : EmLayout) (hl : l.ok) (item : Dop) (cs : List DComp)
-    (h : ∀ c ∈ cs, c.itemOk item ∧ c.EndOk ∧ 1 ≤ c.size ∧ l.miss c) : (DComp.endMarkerMid l item cs).OkM true := by
-  have hoks : ∀ c ∈ cs, c.Ok := fun c hc => (h c hc).1.1
+    (h : ∀ c ∈ cs, c.itemOkM item ∧ c.EndOk ∧ 1 ≤ c.size ∧ l.miss c) : (DComp.endMarkerMid l item cs).OkM true := by
+  have hoks : ∀ c ∈ cs, c.OkM true := fun c hc => (h c hc).1.1
   have hg : Good (Pair.list (cs.map (emItemC l))) := emItems_good l _ (fun c hc => ⟨(h c hc).1.1, (h c hc).2.2.1, (h c hc).2.2.2⟩)
   have hgm := l.marker_good hl
   have hgb : Good (emBodyMid l cs) := (hg.seq hgm).map _
@@ -413,9 +414,9 @@ theorem DComp.endMarkerMid_ok (l : EmLayout) (hl : l.ok) (item : Dop) (cs : List
       intro fuel hf s hcb _ hmid
       have heop : s.isEndOfPdu = false := hmid rfl
       obtain ⟨g, rfl⟩ : ∃ g, fuel = g + 1 + 1 := ⟨fuel - 2, by simp only [DComp.endMarkerMid] at hf; omega⟩
-      obtain ⟨s1, hrun, hcore, hcb1⟩ := encodeItemsC_eq item false cs (DComps.maxNeed cs)
-        (fun c hc => ⟨(h c hc).1, (h c hc).2.2.1, DComps.maxNeed_ge cs c hc⟩) (g + 1)
-        (by simp only [DComp.endMarkerMid] at hf; omega) { s with isEndOfPdu := false } hcb
+      obtain ⟨s1, hrun, hcore, hcb1⟩ := encodeItemsM_eq item false true (fun _ => rfl) cs (DComps.maxNeed cs)
+        (fun c hc => ⟨(h c hc).1, (h c hc).2.2.1, DComps.maxNeed_ge cs c hc⟩) (fun c hc => hoks c (List.mem_of_getLast? hc)) (g + 1)
+        (by simp only [DComp.endMarkerMid] at hf; omega) { s with isEndOfPdu := false } hcb rfl
       rw [← emItems_enc l] at hcore
       let s1' : EncState := { s1 with isEndOfPdu := false }
       obtain ⟨sc, hterm, hsc⟩ := encodeDop_obj l.obj hl.1 (.int l.tv) hl.2 g s1'
@@ -446,15 +447,15 @@ theorem DComp.endMarkerMid_ok (l : EmLayout) (hl : l.ok) (item : Dop) (cs : List
     enc_cursor := fun s => by
       show ((Pair.list (cs.map (emItemC l))).enc { s with origin := s.cursorByte }).cursorByte = _
       rw [emItems_enc]
-      exact dynItemsC_enc_cursor cs hoks { s with origin := s.cursorByte }
+      exact dynItemsM_enc_cursor cs hoks { s with origin := s.cursorByte }
     dec_cursorBit := fun d hd => by
       show ((Pair.list (cs.map (emItemC l))).dec { d with origin := d.cursorByte }).2.cursorBit = 0
       rw [emItems_dec]
-      exact dynItemsC_dec_cursorBit cs hoks { d with origin := d.cursorByte } hd
+      exact dynItemsM_dec_cursorBit cs hoks { d with origin := d.cursorByte } hd
     dec_msg := fun d => by
       show ((Pair.list (cs.map (emItemC l))).dec { d with origin := d.cursorByte }).2.msg = d.msg
       rw [emItems_dec]
-      exact dynItemsC_dec_msg cs hoks { d with origin := d.cursorByte }
+      exact dynItemsM_dec_msg cs hoks { d with origin := d.cursorByte }
     dec_origin := fun _ => rfl
     decode_eq := by
       intro fuel hf d hcb hfit _
@@ -464,7 +465,7 @@ theorem DComp.endMarkerMid_ok (l : EmLayout) (hl : l.ok) (item : Dop) (cs : List
             (decStep l.obj ((Pair.list (cs.map (emItemC l))).dec { d with origin := d.cursorByte }).2).1 = .int l.tv) := hfit
       obtain ⟨hfl, hft, hfv⟩ := hfit'
       rw [emItems_dec] at hft hfv
-      have hmsg := dynItemsC_dec_msg cs hoks { d with origin := d.cursorByte }
+      have hmsg := dynItemsM_dec_msg cs hoks { d with origin := d.cursorByte }
       have hrun := decodeUntilMarkerC_eq l hl item cs (DComps.maxNeed cs)
         (fun c hc => ⟨(h c hc).1, (h c hc).2.1, DComps.maxNeed_ge cs c hc⟩) g (by simp only [DComp.endMarkerMid] at hf; omega)
         { d with origin := d.cursorByte } hcb hfl
